@@ -1,4 +1,444 @@
+//! Product exploration of input vs output instances in node/V8 (DESIGN §3.5): the Rust side.
+//! Builds shards of {spec, a.wasm, b.wasm}, runs up to 16 node processes on js/bisim.js and
+//! turns the verdicts into violations.  Used by C01 (round trip), C06 (gc) and C18 (edits).
+
 use crate::core::*;
-pub fn recheck(_p: &'static str, _c: &Case) -> Vec<Violation> { vec![] }
-pub fn stateful_cases() -> Vec<Case> { vec![] }
-pub fn run_gc(_args: &Args, _ev: &mut Ev, _cases: &[Case]) -> Vec<Violation> { vec![] }
+use crate::pipe::*;
+use serde_json::{json, Value};
+use std::io::Write;
+use std::process::{Command, Stdio};
+use wmodel::{decode, Space, WModule, VT};
+
+pub struct Job {
+    pub id: usize,
+    pub spec: Value,
+    pub a: Vec<u8>,
+    pub b: Vec<u8>,
+}
+
+#[derive(Debug, Clone, Default)]
+pub struct NodeResult {
+    pub verdict: String,
+    pub detail: String,
+    pub states: u64,
+    pub transitions: u64,
+}
+
+fn ty(t: &VT) -> &'static str {
+    match t {
+        VT::I32 => "i32",
+        VT::I64 => "i64",
+        VT::F32 => "f32",
+        VT::F64 => "f64",
+        VT::V128 => "v128",
+        VT::FuncRef => "funcref",
+        VT::ExternRef => "externref",
+        VT::Other(_) => "other",
+    }
+}
+
+/// the import/export interface of a module as the JS side needs it
+pub fn spec_of(m: &WModule) -> Value {
+    let imports: Vec<Value> = m
+        .imports
+        .iter()
+        .map(|i| match &i.kind {
+            wmodel::ImportKind::Func(t) => {
+                let s = m.sig(*t).cloned().unwrap_or(wmodel::FuncSig { params: vec![], results: vec![] });
+                json!({"module": i.module, "name": i.name, "kind": "func", "params": s.params.iter().map(ty).collect::<Vec<_>>(), "results": s.results.iter().map(ty).collect::<Vec<_>>()})
+            }
+            wmodel::ImportKind::Table(t) => json!({"module": i.module, "name": i.name, "kind": "table", "elem": ty(&t.elem), "min": t.lim.min, "max": t.lim.max, "is64": t.lim.is64}),
+            wmodel::ImportKind::Memory(t) => json!({"module": i.module, "name": i.name, "kind": "memory", "min": t.lim.min, "max": t.lim.max, "shared": t.lim.shared, "is64": t.lim.is64}),
+            wmodel::ImportKind::Global(t) => json!({"module": i.module, "name": i.name, "kind": "global", "ty": ty(&t.ty), "mutable": t.mutable}),
+            wmodel::ImportKind::Tag(_) => json!({"module": i.module, "name": i.name, "kind": "tag"}),
+        })
+        .collect();
+    let exports: Vec<Value> = m
+        .exports
+        .iter()
+        .map(|e| match e.space {
+            Space::Func => {
+                let s = m.func_sig(e.index).cloned().unwrap_or(wmodel::FuncSig { params: vec![], results: vec![] });
+                json!({"name": e.name, "kind": "func", "params": s.params.iter().map(ty).collect::<Vec<_>>(), "results": s.results.iter().map(ty).collect::<Vec<_>>()})
+            }
+            Space::Table => json!({"name": e.name, "kind": "table"}),
+            Space::Mem => json!({"name": e.name, "kind": "memory"}),
+            Space::Global => json!({"name": e.name, "kind": "global", "ty": m.globals.get(e.index as usize).map(|g| ty(&g.ty.ty)).unwrap_or("other")}),
+            _ => json!({"name": e.name, "kind": "other"}),
+        })
+        .collect();
+    json!({"imports": imports, "exports": exports})
+}
+
+pub fn node_available() -> bool {
+    Command::new("node").arg("--version").stdout(Stdio::null()).stderr(Stdio::null()).status().map(|s| s.success()).unwrap_or(false)
+}
+
+/// Run all jobs through node; results are indexed like `jobs`.
+pub fn run_node(args: &Args, tag: &str, jobs: &[Job]) -> Result<Vec<NodeResult>, String> {
+    let dir = args.verif.join("work").join("bisim").join(tag);
+    let _ = std::fs::remove_dir_all(&dir);
+    std::fs::create_dir_all(&dir).map_err(|e| e.to_string())?;
+    let nshards = args.threads.max(1).min(jobs.len().max(1));
+    let mut files = vec![];
+    for s in 0..nshards {
+        let path = dir.join(format!("shard{}.bin", s));
+        let mut f = std::io::BufWriter::new(std::fs::File::create(&path).map_err(|e| e.to_string())?);
+        for (k, j) in jobs.iter().enumerate() {
+            if k % nshards != s {
+                continue;
+            }
+            let mut spec = j.spec.clone();
+            spec["id"] = json!(k);
+            let sj = spec.to_string().into_bytes();
+            for part in [&sj[..], &j.a[..], &j.b[..]] {
+                f.write_all(&(part.len() as u32).to_le_bytes()).map_err(|e| e.to_string())?;
+                f.write_all(part).map_err(|e| e.to_string())?;
+            }
+        }
+        f.flush().map_err(|e| e.to_string())?;
+        files.push(path);
+    }
+    let script = args.verif.join("js").join("bisim.js");
+    let out: std::sync::Mutex<Vec<NodeResult>> = std::sync::Mutex::new(vec![NodeResult { verdict: "missing".into(), ..Default::default() }; jobs.len()]);
+    let errs: std::sync::Mutex<Vec<String>> = std::sync::Mutex::new(vec![]);
+    // one supervising thread per shard: a case that produces no output for WATCHDOG seconds is
+    // killed, recorded as a time-out (a machinery event, never a verdict) and the shard resumes
+    // after it
+    const WATCHDOG: u64 = 20;
+    std::thread::scope(|sc| {
+        for p in &files {
+            let (out, errs, script) = (&out, &errs, &script);
+            sc.spawn(move || {
+                let mut from = 0usize; // position inside the shard
+                let mut restarts = 0;
+                loop {
+                    let child = Command::new("node")
+                        .arg("--experimental-wasm-memory64")
+                        .arg("--experimental-wasm-relaxed-simd")
+                        .arg("--stack-size=900")
+                        .arg(script)
+                        .arg(p)
+                        .arg(from.to_string())
+                        .stdout(Stdio::piped())
+                        .stderr(Stdio::null())
+                        .spawn();
+                    let mut child = match child {
+                        Ok(c) => c,
+                        Err(e) => {
+                            errs.lock().unwrap().push(format!("cannot start node: {}", e));
+                            return;
+                        }
+                    };
+                    let stdout = child.stdout.take().unwrap();
+                    let (tx, rx) = std::sync::mpsc::channel::<String>();
+                    let reader = std::thread::spawn(move || {
+                        use std::io::BufRead;
+                        for line in std::io::BufReader::new(stdout).lines() {
+                            match line {
+                                Ok(l) => {
+                                    if tx.send(l).is_err() {
+                                        break;
+                                    }
+                                }
+                                Err(_) => break,
+                            }
+                        }
+                    });
+                    let mut current: Option<usize> = None;
+                    let mut done_in_run = 0usize;
+                    let mut hung = false;
+                    loop {
+                        match rx.recv_timeout(std::time::Duration::from_secs(WATCHDOG)) {
+                            Ok(line) => {
+                                if let Some(k) = line.strip_prefix("B ") {
+                                    current = k.trim().parse().ok();
+                                } else if let Ok(v) = serde_json::from_str::<Value>(&line) {
+                                    if let Some(k) = v["case"].as_u64() {
+                                        let mut o = out.lock().unwrap();
+                                        if (k as usize) < o.len() {
+                                            o[k as usize] = NodeResult {
+                                                verdict: v["verdict"].as_str().unwrap_or("error").to_string(),
+                                                detail: v["detail"].as_str().unwrap_or("").to_string(),
+                                                states: v["states"].as_u64().unwrap_or(0),
+                                                transitions: v["transitions"].as_u64().unwrap_or(0),
+                                            };
+                                        }
+                                        done_in_run += 1;
+                                        current = None;
+                                    }
+                                }
+                            }
+                            Err(std::sync::mpsc::RecvTimeoutError::Timeout) => {
+                                hung = true;
+                                let _ = child.kill();
+                                break;
+                            }
+                            Err(std::sync::mpsc::RecvTimeoutError::Disconnected) => break,
+                        }
+                    }
+                    let _ = child.wait();
+                    let _ = reader.join();
+                    if hung {
+                        if let Some(k) = current {
+                            let mut o = out.lock().unwrap();
+                            if k < o.len() {
+                                o[k] = NodeResult { verdict: "timeout".into(), detail: format!("no progress for {} s", WATCHDOG), ..Default::default() };
+                            }
+                        }
+                        from += done_in_run + 1;
+                        restarts += 1;
+                        if restarts > 200 {
+                            errs.lock().unwrap().push("too many watchdog restarts in one shard".into());
+                            return;
+                        }
+                        continue;
+                    }
+                    return;
+                }
+            });
+        }
+    });
+    let out = out.into_inner().unwrap();
+    for e in errs.into_inner().unwrap() {
+        eprintln!("bisim: {}", e);
+    }
+    let _ = std::fs::remove_dir_all(&dir);
+    Ok(out)
+}
+
+/// classify a diff detail into a stable signature
+pub fn diff_sig(detail: &str) -> String {
+    let kind = if detail.starts_with("instantiation differs") {
+        "instantiation"
+    } else if detail.contains("host-call trace") {
+        "host-trace"
+    } else if detail.contains(": state ") || detail.starts_with("state after") {
+        "state"
+    } else if detail.starts_with("export lists differ") {
+        "export-list"
+    } else if detail.starts_with("output does not compile") {
+        "output-does-not-compile"
+    } else if detail.contains("trap:") {
+        "trap"
+    } else {
+        "result"
+    };
+    format!("behaviour-differs:{}", kind)
+}
+
+// ---------------------------------------------------------------------------------------------
+
+pub fn stateful_cases() -> Vec<Case> {
+    wgen::stateful::stateful_modules().into_iter().map(|(n, w)| Case { family: "stateful".into(), coords: n.to_string(), wasm: w, cfg: json!({}) }).collect()
+}
+
+struct Planned {
+    case: Case,
+    mode: &'static str,
+    depth: usize,
+}
+
+fn plan_c01(args: &Args, ev: &mut Ev) -> Vec<Planned> {
+    let thorough = args.tier == Tier::Thorough;
+    let mut v = vec![];
+    for c in stateful_cases() {
+        v.push(Planned { case: c, mode: "bfs", depth: if thorough { 5 } else { 3 } });
+    }
+    let ms = crate::props::families::members(&["fixtures", "funcs", "locals", "struct", "reach"], args, ev);
+    for m in &ms {
+        v.push(Planned { case: Case::of(m), mode: if m.family == "fixtures" { "bfs" } else { "batch" }, depth: 2 });
+    }
+    // bodies, batched 64 per module
+    let alpha = wgen::body::alphabet();
+    let (seqs, _) = crate::props::bodies::enumerate_all(crate::props::bodies::max_len(args), args.threads);
+    ev.extra.insert("body_family".into(), json!({"alphabet": alpha.len(), "max_len": crate::props::bodies::max_len(args), "members": seqs.len(), "batch": 64}));
+    for (bi, chunk) in seqs.chunks(64).enumerate() {
+        let bodies: Vec<Vec<u8>> = chunk.iter().map(|s| wgen::body::body_bytes(&alpha, s)).collect();
+        let wasm = wgen::body::scaffold(&bodies);
+        let coords = format!("batch {} [{} .. {}]", bi, wgen::body::show(&alpha, &chunk[0]), wgen::body::show(&alpha, &chunk[chunk.len() - 1]));
+        let seqs_json: Vec<Vec<u8>> = chunk.to_vec();
+        v.push(Planned { case: Case { family: "body-batch".into(), coords, wasm, cfg: json!({"seqs": seqs_json}) }, mode: "batch", depth: 1 });
+    }
+    v
+}
+
+fn job_for(p: &Planned, do_gc: bool, full_values: bool, id: usize) -> Option<Job> {
+    if wmodel::validate214(&p.case.wasm, wmodel::FeatureSet::DEFAULT).is_err() {
+        return None;
+    }
+    let out = roundtrip(&p.case.wasm, &Cfg::default(), do_gc).ok()?;
+    let a = decode(&p.case.wasm).ok()?;
+    let mut spec = spec_of(&a);
+    if do_gc {
+        // gc may drop imports: the output side gets its own interface description
+        let b = decode(&out).ok()?;
+        spec["specB"] = spec_of(&b);
+        spec["skip_if_input_fails"] = json!(true);
+    }
+    spec["mode"] = json!(p.mode);
+    spec["depth"] = json!(p.depth);
+    spec["full_values"] = json!(full_values);
+    Some(Job { id, spec, a: p.case.wasm.clone(), b: out })
+}
+
+fn run_planned(prop: &'static str, args: &Args, ev: &mut Ev, planned: Vec<Planned>, do_gc: bool) -> Vec<Violation> {
+    let mut viol = vec![];
+    if !node_available() {
+        ev.note("node is not available: the behavioural (bisim) part did not run; structural parts only");
+        ev.exhaustive = false;
+        return viol;
+    }
+    let full = args.tier == Tier::Thorough;
+    let (jobs_opt, _) = pmap(&planned, args.threads, None, |p| job_for(p, do_gc, full, 0));
+    let mut jobs = vec![];
+    let mut owner = vec![];
+    for (i, j) in jobs_opt.into_iter().enumerate() {
+        if let Some(Some(j)) = j {
+            jobs.push(j);
+            owner.push(i);
+        }
+    }
+    let res = match run_node(args, prop, &jobs) {
+        Ok(r) => r,
+        Err(e) => {
+            ev.note(format!("bisim engine failure: {}", e));
+            ev.exhaustive = false;
+            return viol;
+        }
+    };
+    let mut skipped = 0u64;
+    let mut errors = 0u64;
+    let mut second: Vec<Planned> = vec![];
+    for (k, r) in res.iter().enumerate() {
+        let p = &planned[owner[k]];
+        ev.evaluations += 1;
+        ev.states += r.states;
+        ev.transitions += r.transitions;
+        match r.verdict.as_str() {
+            "ok" => {
+                if r.states > 1 {
+                    ev.nontrivial += 1;
+                }
+            }
+            "skip" => skipped += 1,
+            "diff" => {
+                if p.case.family == "body-batch" {
+                    // re-run body by body
+                    let alpha = wgen::body::alphabet();
+                    if let Some(seqs) = p.case.cfg["seqs"].as_array() {
+                        for s in seqs {
+                            let seq: Vec<u8> = s.as_array().map(|a| a.iter().map(|x| x.as_u64().unwrap_or(0) as u8).collect()).unwrap_or_default();
+                            second.push(Planned {
+                                case: Case { family: "body".into(), coords: wgen::body::show(&alpha, &seq), wasm: wgen::body::scaffold(&[wgen::body::body_bytes(&alpha, &seq)]), cfg: json!({}) },
+                                mode: "batch",
+                                depth: 1,
+                            });
+                        }
+                    }
+                } else {
+                    let mut c = p.case.clone();
+                    c.cfg = json!({"bisim": true, "mode": p.mode, "depth": p.depth, "gc": do_gc});
+                    viol.push(Violation::new(prop, diff_sig(&r.detail), r.detail.clone(), &c));
+                }
+            }
+            _ => {
+                errors += 1;
+                ev.note(format!("bisim machinery event on {}:{}: {} {}", p.case.family, p.case.coords, r.verdict, r.detail));
+            }
+        }
+    }
+    if !second.is_empty() {
+        let (jobs2, _) = pmap(&second, args.threads, None, |p| job_for(p, do_gc, full, 0));
+        let mut jobs = vec![];
+        let mut own = vec![];
+        for (i, j) in jobs2.into_iter().enumerate() {
+            if let Some(Some(j)) = j {
+                jobs.push(j);
+                own.push(i);
+            }
+        }
+        if let Ok(res2) = run_node(args, &format!("{}-second", prop), &jobs) {
+            let mut any = false;
+            for (k, r) in res2.iter().enumerate() {
+                ev.transitions += r.transitions;
+                if r.verdict == "diff" {
+                    any = true;
+                    let mut c = second[own[k]].case.clone();
+                    c.cfg = json!({"bisim": true, "mode": "batch", "depth": 1, "gc": do_gc});
+                    viol.push(Violation::new(prop, diff_sig(&r.detail), r.detail.clone(), &c));
+                }
+            }
+            if !any {
+                ev.note("a batched body module differed but no single body did: difference needs the batch context (reported as machinery note, batch kept in work/)");
+            }
+        }
+    }
+    ev.extra.insert("bisim".into(), json!({"cases_run_in_v8": res.len(), "exec_skipped": skipped, "machinery_events": errors}));
+    viol
+}
+
+pub fn recheck(prop: &'static str, c: &Case) -> Vec<Violation> {
+    let args = Args {
+        id: prop.to_string(),
+        tier: Tier::Thorough,
+        seed: 0,
+        repo: "/repo".into(),
+        verif: std::env::var("WCHECK_VERIF").map(Into::into).unwrap_or_else(|_| "/verif".into()),
+        replay: None,
+        threads: 1,
+        budget_s: 60.0,
+    };
+    let do_gc = c.cfg.get("gc").and_then(|x| x.as_bool()).unwrap_or(false);
+    let mode = if c.cfg.get("mode").and_then(|x| x.as_str()) == Some("bfs") { "bfs" } else { "batch" };
+    let depth = c.cfg.get("depth").and_then(|x| x.as_u64()).unwrap_or(2) as usize;
+    let p = Planned { case: c.clone(), mode, depth };
+    let job = match job_for(&p, do_gc, true, 0) {
+        Some(j) => j,
+        None => return vec![],
+    };
+    match run_node(&args, &format!("{}-replay-{}", prop, std::process::id()), &[job]) {
+        Ok(r) if r[0].verdict == "diff" => vec![Violation::new(prop, diff_sig(&r[0].detail), r[0].detail.clone(), c)],
+        _ => vec![],
+    }
+}
+
+pub fn run_gc(args: &Args, ev: &mut Ev, cases: &[Case]) -> Vec<Violation> {
+    let planned: Vec<Planned> = cases
+        .iter()
+        .map(|c| Planned { case: c.clone(), mode: if c.family == "stateful" || c.family == "fixtures" { "bfs" } else { "batch" }, depth: if args.tier == Tier::Quick { 2 } else { 3 } })
+        .collect();
+    run_planned("C06", args, ev, planned, true)
+}
+
+pub fn run_c01(args: &Args) -> i32 {
+    let mut ev = Ev::new("C01");
+    if let Some(p) = &args.replay {
+        let (case, _) = match read_replay(p) {
+            Ok(x) => x,
+            Err(e) => {
+                eprintln!("MACHINERY: {}", e);
+                return 2;
+            }
+        };
+        ev.evaluations = 1;
+        let v = recheck("C01", &case);
+        return finish(args, ev, v, &|c| recheck("C01", c));
+    }
+    let planned = plan_c01(args, &mut ev);
+    for i in [0usize, planned.len() / 2, planned.len() - 1] {
+        ev.sample(json!({"family": planned[i].case.family, "coords": planned[i].case.coords, "mode": planned[i].mode, "depth": planned[i].depth}));
+    }
+    let viol = run_planned("C01", args, &mut ev, planned, false);
+    ev.rule = "for every member (stateful modules, fixtures, funcs, locals, struct, reach, and every valid body of the body family batched 64 per module): the input and the bytes walrus re-emits are \
+        instantiated in V8 against identical deterministic hosts; breadth-first search over call sequences (stateful/fixtures; re-instantiate + replay, de-duplicated on the product digest) or one long \
+        deterministic history over all exports x all argument vectors (batches); after every transition results / trap class / host-call trace / exported+imported state digest must agree. \
+        states = distinct product digests; non-trivial = cases that reached more than one state"
+        .into();
+    ev.bounds = json!({"tier": args.tier.s(), "bfs_depth_stateful": if args.tier == Tier::Quick { 3 } else { 5 }, "values_per_type": 4});
+    ev.assumptions = vec![
+        "V8 (node 20) is the execution oracle; modules it cannot compile (multi-memory, 64-bit tables) are exec_skipped and covered structurally by C03/C04".into(),
+        "NaN payloads of float results are not observable from JS".into(),
+    ];
+    finish(args, ev, viol, &|c| recheck("C01", c))
+}
